@@ -36,7 +36,7 @@ def run_tracecheck(transcript, timeout=600):
 
 
 def one_history(args):
-    idx, seed, nops, wl_bin, family = args
+    idx, seed, nops, wl_bin, family, journal = args
     rng = Rng(seed).fork('hist%d' % idx)
     d = vlib.scratch_dir('wl')
     dbdir = os.path.join(d, 'db')
@@ -49,6 +49,8 @@ def one_history(args):
             opts = rng.choice(wl_gen.opt_sets(rng, None))
             name = family
             lines = dict(wl_gen.FAMILIES)[family](rng, dbdir, opts, nops)
+        if journal and (not lines or lines[0] != 'journal on'):
+            lines = ['journal on'] + lines
         rc, out, err = run_script(wl_bin, lines, timeout=1800)
         problems = []
         if rc != 0:
@@ -66,12 +68,12 @@ def one_history(args):
         shutil.rmtree(d, ignore_errors=True)
 
 
-def run_histories(chk, n, nops, tag_filter, label, family=None, seed_salt=''):
+def run_histories(chk, n, nops, tag_filter, label, family=None, seed_salt='', journal=False):
     """tag_filter: set of problem tags (the text inside [...]) this property owns; others are ignored here
     (they belong to another property's check) except [other]/[fault], which always count."""
     wl_bin = vlib.build_harness('wl', 'asan', exclude=['db_impl.c'])
     base = Rng(chk.seed).fork(label + seed_salt).next()
-    jobs = [(i, base + i, nops, wl_bin, family) for i in range(n)]
+    jobs = [(i, base + i, nops, wl_bin, family, journal) for i in range(n)]
     results = []
     with cf.ThreadPoolExecutor(vlib.NPROC) as ex:
         for r in ex.map(one_history, jobs):
